@@ -147,10 +147,17 @@ impl HotTier {
             inserted_at: Instant::now(),
         };
 
-        self.documents.write().insert(doc_id, doc);
+        // Take the size under the documents guard and release it before touching `stats`:
+        // every other path locks `documents` before `stats`, so holding `stats` while
+        // re-acquiring `documents` here deadlocks against a concurrent delete/drain.
+        let current_size = {
+            let mut docs = self.documents.write();
+            docs.insert(doc_id, doc);
+            docs.len()
+        };
 
         let mut stats = self.stats.write();
-        stats.current_size = self.documents.read().len();
+        stats.current_size = current_size;
         stats.total_inserts += 1;
     }
 
